@@ -37,6 +37,10 @@ type Expect = Result<Vec<u8>, GeneratorError>;
 /// hash_buf of the first `len` bytes of the stream (the delivered bytes are always a prefix).
 fn expected_for<V: Variant>(stream: Stream, len: u64, cache: &Mutex<HashMap<(usize, u64), Expect>>) -> Expect {
     let vi = VARIANT_NAMES.iter().position(|n| *n == V::NAME).unwrap();
+    if len > crate::refmodel::tables::MAX_LEN {
+        // hash_buf of more than MAX bytes is the too-large error whatever the content (C11 decides that)
+        return Err(GeneratorError::TooLargeInput);
+    }
     if let Some(e) = cache.lock().unwrap().get(&(vi, len)) {
         return e.clone();
     }
@@ -199,6 +203,48 @@ pub fn run(r: &mut Report, ctx: &Ctx) {
             true,
         );
     }
+    if ctx.want("huge-stream") {
+        // streams longer than the 4,224,281,216-byte maximum: an error reported after that point is still an error
+        let max = crate::refmodel::tables::MAX_LEN;
+        let mut scripts = Vec::new();
+        let steps = |t: u64| ((t as usize + BUF - 1) / BUF) as usize;
+        let t = max + 1 + 5 * BUF as u64 + 5;
+        scripts.push(Script { total: t, deviations: vec![(steps(t), Ans::Hard(ErrorKind::Other))] });
+        if !quick {
+            scripts.push(Script { total: t, deviations: vec![] });
+            scripts.push(Script { total: max + 2, deviations: vec![(steps(max + 2), Ans::Hard(ErrorKind::PermissionDenied))] });
+            scripts.push(Script { total: max, deviations: vec![(steps(max), Ans::Hard(ErrorKind::TimedOut))] });
+            scripts.push(Script { total: t, deviations: vec![(steps(max) + 2, Ans::Interrupted), (steps(t), Ans::Hard(ErrorKind::WouldBlock))] });
+            scripts.push(Script { total: t, deviations: vec![(steps(max) - 1, Ans::Deliver(3)), (steps(t) + 1, Ans::Hard(ErrorKind::Other))] });
+        }
+        let cache = Mutex::new(HashMap::new());
+        r.section(
+            "huge-stream",
+            "streams longer than the maximum input length, delivered in full 1 MiB reads (zeros): a hard error reported after more than MAX bytes were delivered is still Err(IOError) of that kind; without an error the result is the too-large generator error; non-trivial = all",
+            &format!("{} scripts of about 4.2 GB each, variant Normal{}", scripts.len(), if quick { "" } else { " and Short" }),
+            true,
+            |s| {
+                let scripts = &scripts;
+                let cache = &cache;
+                let nv: u64 = if quick { 1 } else { 2 };
+                s.acc = par_for(scripts.len() as u64 * nv, 1, |idx, acc| {
+                    let sc = &scripts[(idx / nv) as usize];
+                    let v = [1usize, 0][(idx % nv) as usize];
+                    acc.evals += 1;
+                    acc.transitions += 1;
+                    acc.nontrivial += 1;
+                    let res = with_variant!(v, judge_script(Stream::Zeros, sc, cache));
+                    match res {
+                        Ok((class, _)) => {
+                            acc.outcomes.insert(class | (idx << 4));
+                            acc.sample(idx, || json!({"variant": VARIANT_NAMES[v], "script": sc.to_json(), "outcome_class": class}));
+                        }
+                        Err(e) => acc.fail(idx, "huge-stream", e, json!({"kind": "script", "key": script_key(sc), "variant": VARIANT_NAMES[v], "script": sc.to_json(), "stream": "S2-zeros"})),
+                    }
+                });
+            },
+        );
+    }
     if ctx.want("files") {
         r.section(
             "files",
@@ -335,9 +381,9 @@ pub fn run(r: &mut Report, ctx: &Ctx) {
     }
 }
 
-fn rs<V: Variant>(sc: &Script) -> Result<(), String> {
+fn rs<V: Variant>(sc: &Script, stream: Stream) -> Result<(), String> {
     let cache = Mutex::new(HashMap::new());
-    judge_script::<V>(Stream::Mixed, sc, &cache).map(|(c, _)| println!("script outcome class {c} agrees with the oracle"))
+    judge_script::<V>(stream, sc, &cache).map(|(c, _)| println!("script outcome class {c} agrees with the oracle"))
 }
 
 pub fn replay(case: &Value) -> Result<(), String> {
@@ -347,7 +393,8 @@ pub fn replay(case: &Value) -> Result<(), String> {
             let v = case["variant"].as_str().ok_or("variant")?;
             let sc = Script::from_json(&case["script"]).ok_or("script")?;
             println!("script: {}", sc.to_json());
-            with_variant!(v, rs(&sc))
+            let stream = case["stream"].as_str().and_then(Stream::from_name).unwrap_or(Stream::Mixed);
+            with_variant!(v, rs(&sc, stream))
         }
         k => Err(format!("replay kind {k}: re-run the check")),
     }
